@@ -217,3 +217,25 @@ package sqlite
 //@     after call (squirrel.SelectBuilder).OrderBy args _, cols : ordered = pre(len(cols) == 1 && cols[0] == "authorization_model_id desc")
 //@     after call (squirrel.SelectBuilder).Limit args _, n : limited = n == options.Pagination.PageSize + 1
 //@     before call (squirrel.SelectBuilder).QueryContext args _ : assert scoped && ordered && (options.Pagination.PageSize > 0 ==> limited)
+
+// ------------------------------------------------------------------ C12: the write transaction (Go half)
+// the closures handed to busyRetry return exactly what BeginTx / Commit returned (with busyRetry's contract: a Write
+// whose commit closure ran reports the result of its last Commit attempt). A contract for the whole write function
+// (success only after a successful Commit) was attempted and not discharged in the time available; it is not claimed.
+//@ func (*Datastore).write$3() (err)
+//@   property C12
+//@   option nosafety
+//@   ensures @commitResult called && err == res
+//@   monitor commit
+//@     ghost called = false
+//@     ghost res error = nil
+//@     after call (*sql.Tx).Commit returning e : called = true ; res = e
+
+//@ func (*Datastore).write$1() (err)
+//@   property C12
+//@   option nosafety
+//@   ensures @beginResult called && err == res
+//@   monitor begin
+//@     ghost called = false
+//@     ghost res error = nil
+//@     after call (*sql.DB).BeginTx returning t, e : called = true ; res = e
